@@ -32,6 +32,12 @@ REJECT_SHAPES = [
     ("cross-block-local", "out1: { let a = w2; if (w2.flag) { a = w1 } return a.silentVal }"),
     ("under-condition", "out1: w2.flag ? w2.silentVal : 0"),
     ("in-gadget-member", "font.pointSize: w2.silentVal"),
+    ("after-switch-with-breaks", "out1: { let a = 0; switch (w2.intVal) { case 1: a = 1; break; default: a = 2; break; } return a + w2.silentVal }"),
+    ("after-switch-default-first", "out1: { let a = 0; switch (w2.intVal) { default: a = 2; break; case 1: a = 1; break; } return a + w2.silentVal }"),
+    ("inside-switch-clause", "out1: { switch (w2.intVal) { case 1: return w2.silentVal; default: return 0; } }"),
+    ("after-if-else", "out1: { let a = 0; if (w2.flag) { a = 1 } else { a = 2 } return a + w2.silentVal }"),
+    ("in-else-branch", "out1: { if (w2.flag) { return 1 } else { return w2.silentVal } }"),
+    ("after-early-return", "out1: { if (w2.flag) { return 1 } return w2.silentVal }"),
     ("link-without-notify", "out1: w2.silentPeer.intVal"),
     ("link-without-notify-guarded", "out1: w2.silentPeer != null ? w2.silentPeer.intVal : 0"),
     ("link-without-notify-second-hop", "out1: w2.peer.silentPeer.intVal"),
